@@ -34,14 +34,15 @@ def honest_never_slashed_statement : Prop :=
 /-- What holds while F-C05b is open (and only since the F-C05a repair): if every BLS key that a look-back set
 associates with main address `a` signed at most one hash per (round, index) — across all vote kinds — then no list
 of evidences, however assembled (any index, kind, pairs, forged or real signatures), gets `a` penalised, and `a`'s
-record comes out of `processEvidences` exactly as it went in.  BLS unforgeability is the hypothesis `hEUF`. -/
+record and `a`'s withdraw records (its own and its delegators') come out of `processEvidences` exactly as they went in.  BLS unforgeability is the hypothesis `hEUF`. -/
 theorem honest_never_slashed_partial (env : Env σ) (a : Addr) (votes : Key → List Vote)
     (hwf : ∀ k, KeyOf env.cfg env.chain a k → ∀ w ∈ votes k, VoteWF w)
     (hEUF : ∀ k, KeyOf env.cfg env.chain a k → SignedOnly env.verify k (votes k))
     (hsingle : ∀ k, KeyOf env.cfg env.chain a k → SingleHash (votes k))
     (evs : List (Ev σ)) (hev : ∀ e ∈ evs, EvWF e) (st : St) (seen : List Addr) :
     a ∉ penalisedOf (processAll env st seen evs).verdicts ∧
-    findVal (processAll env st seen evs).st.vals a = findVal st.vals a := by
+    findVal (processAll env st seen evs).st.vals a = findVal st.vals a ∧
+    recsOf a (processAll env st seen evs).st.queue = recsOf a st.queue := by
   have hnot : a ∉ penalisedOf (processAll env st seen evs).verdicts := by
     intro hmem
     obtain ⟨e, he, st', seen', signer, k, v, hacc, hsa⟩ := processAll_penalised_accepts env evs st seen a hmem
@@ -57,7 +58,7 @@ theorem honest_never_slashed_partial (env : Env σ) (a : Addr) (votes : Key → 
         rw [hsa, this]
     obtain ⟨v1, hv1, v2, hv2, r1, i1, r2, i2, hne⟩ := accepts_two_votes hacc (hev e he) (hwf k hk) (hEUF k hk)
     exact hne (hsingle k hk v1 hv1 v2 hv2 (by rw [r1, r2]) (by rw [i1, i2]))
-  exact ⟨hnot, processAll_frame env a evs st seen hnot⟩
+  exact ⟨hnot, processAll_frame env a evs st seen hnot, processAll_queue_frame env a evs st seen hnot⟩
 
 /-! ### the counterexample to the full statement (F-C05b), on the model; replayed on the real code by the harness
 (probe F-C05b, matcher `cross-kind-evidence`) -/
